@@ -103,7 +103,9 @@ def one_call(prog, Model, n, t, o, rng, rep, lines, expect, txt):
     terms = [(tm.name, tm.offset) for st in eqs for tm in [st.lhs] + g.terms_of(st.rhs)]
     # where the instance comes from must not matter: constructed, a copy of a used one, or a used one reindexed down
     prov = rng.choice(sc.PROVENANCES)
-    m = sc.with_provenance(Model, range(100, 100 + n), prov, names=())
+    dt = rng.choice([None, None, None, object, np.float32])      # the series' dtype must not matter to the frame
+    make = (lambda sp: Model(sp, dtype=dt)) if dt is not None else Model
+    m = sc.with_provenance(make, range(100, 100 + n), prov, names=())
     data = g.random_data(rng, prog, n)
     shared = rng.random() < 0.25      # the caller hands ONE float array to several variables: each must get its own copy
     if shared and data:
